@@ -41,6 +41,7 @@ def jobs(tier):
     js += [("ParseInt<long>:21 digits,L=21", job_long_digits, {})]
     js += [("ParseOffset:mode=%s,L=%d" % (m, 9), F.job_parseoffset, {"mode": m, "L": 9}) for m in ("", ":")]
     js += [("ParseSubSeconds:L=%d" % n, F.job_parsesubsec, {"L": n}) for n in ((4,) if tier == "quick" else (4, 17))]
+    js += [("ParseSubSeconds:%d digits,L=%d" % (n, n + 1), F.job_parsesubsec_digits, {"nd": n}) for n in ((16, 17) if tier == "quick" else (15, 16, 17, 19))]
     return js
 
 def job_long_digits():
